@@ -45,7 +45,7 @@ class UserError(Exception):
     pass
 
 
-EXCEPTIONS = [Exception, KeyError, OSError, UserError, TimeoutError, StopAsyncIteration, ArithmeticError]
+EXCEPTIONS = [Exception, KeyError, OSError, UserError, TimeoutError, StopAsyncIteration, ArithmeticError, StopIteration]
 KW = [(), ("k",), ("timeout", "name")]
 
 
@@ -191,6 +191,10 @@ def execute(ctx, flavour, caller, ncalls, fixed_kw=None):
         if what == "return":
             ctx.require(kind == "return", tag + "a returned object is handed to the caller")
             ctx.require(kind == "return" and (got is obj), tag + "the caller receives the very object the payload returned")
+        elif detail is StopIteration and flavour != "threading":
+            # a coroutine cannot let StopIteration escape: the language replaces it by RuntimeError (PEP 479)
+            ctx.require(kind == "raise" and isinstance(got, RuntimeError) and obj in rt.flatten(got),
+                        tag + "StopIteration from a coroutine reaches the caller as the RuntimeError the language makes of it")
         else:
             ctx.require(kind == "raise", tag + "an exception is raised in the caller")
             ctx.require(kind == "raise" and type(got) is detail, tag + "the caller sees an exception of the class the payload raised")
@@ -288,8 +292,62 @@ def _overlapping(flavour, n=6):
     return problems
 
 
+def _nested(outer, inner):
+    """enumerated, concrete: an outside thread executes a payload of flavour `outer` which itself executes a
+    payload of the different flavour `inner`; both calls must hand back their payload's object"""
+    w = rt.World(accept_delay=0.02)
+    runner = w.runner
+    problems = []
+    token = object()
+
+    if inner == "threading":
+        def innermost():
+            return token
+    else:
+        async def innermost():
+            return token
+
+    def body():
+        return runner.execute(innermost, flavour=rt.FLAVOURS[inner])
+
+    if outer == "threading":
+        def outermost():
+            return body()
+    else:
+        async def outermost():
+            return body()
+    try:
+        w.start()
+        if not w.wait_running():
+            return ["runner never reported running"]
+        o, t = rt.blocking(lambda: runner.execute(outermost, flavour=rt.FLAVOURS[outer]), bound=rt.BOUND)
+        if o.kind != "return" or o.value is not token:
+            problems.append("nested execute %s > %s: expected the inner payload's object, got %s %r" % (outer, inner, o.kind, o.exc or o.value))
+        if not (runner.running.is_set() and w.thread.is_alive()):
+            problems.append("the runtime stopped running")
+    finally:
+        try:
+            w.cleanup()
+        except Exception as e:
+            problems.append("cleanup failed: %s" % e)
+    return problems
+
+
 def extra(tier, seed):
     violations = []
+    for outer in FLAV:
+        for inner in FLAV:
+            if outer == inner and outer != "threading":
+                continue
+            problems = _nested(outer, inner)
+            if problems:
+                problems = _nested(outer, inner)
+            for msg in problems[:1]:
+                violations.append({"harness": "nested_execute", "label": "an executed payload may itself execute a payload of another flavour (enumerated scenario)",
+                                   "inputs": {"outer": outer, "inner": inner, "problem": msg}, "params": {}, "status": "confirmed",
+                                   "kind": "custom", "module": MOD, "property": PROPERTY})
+            if problems and any("cleanup" in x for x in problems):
+                break
     for f in FLAV:
         problems = _overlapping(f)
         if problems:
@@ -303,7 +361,7 @@ def extra(tier, seed):
 
 
 def replay(v):
-    problems = _overlapping(v["inputs"]["flavour"])
+    problems = _nested(v["inputs"]["outer"], v["inputs"]["inner"]) if v.get("harness") == "nested_execute" else _overlapping(v["inputs"]["flavour"])
     print(problems)
     print("REPRODUCED" if problems else "not reproduced on this tree")
     return 1 if problems else 0
